@@ -77,6 +77,8 @@ type Exec struct {
 	bounds   map[string]int64
 	mapOrder int
 	mapRot   int
+	mdl      *model
+	auxVars  []*Term
 	nextMap  int
 	fileData map[string]fileStub
 	hb       *hbState
